@@ -4,6 +4,7 @@ import (
 	"context"
 	"fmt"
 	"math/rand/v2"
+	"strings"
 	"sync"
 
 	"verif/harness/lib"
@@ -31,6 +32,8 @@ type d1File struct {
 	onDisk int64
 	ar     *pb.ActionResult
 	sect   string // evidence / finding-key section: "dir1" (default) or "golden"
+	winLo  uint64 // smallest / largest window advertised by the file's chunk frames
+	winHi  uint64
 }
 
 func (f *d1File) section() string {
@@ -41,14 +44,14 @@ func (f *d1File) section() string {
 }
 
 func (f *d1File) describe() map[string]any {
-	return map[string]any{"id": f.id, "file": f.rel, "representation": f.repr, "logical_size": len(f.data), "header_chunk_size": f.chunk, "encoder": f.enc, "suffix": f.suffix, "size_on_disk": f.onDisk}
+	return map[string]any{"id": f.id, "file": f.rel, "representation": f.repr, "logical_size": len(f.data), "header_chunk_size": f.chunk, "encoder": f.enc, "suffix": f.suffix, "size_on_disk": f.onDisk, "chunk_frame_window_min": f.winLo, "chunk_frame_window_max": f.winHi}
 }
 
 // d1Sizes: size classes of DESIGN §3, weighted towards the cheaper ones.
 func d1Size(rng *rand.Rand) int {
 	switch rng.IntN(10) {
 	case 0, 1:
-		return lib.Pick(rng, []int{2 * lib.MiB, 2*lib.MiB + 4097, 3*lib.MiB + 1, 5*lib.MiB + 17})
+		return lib.Pick(rng, []int{2 * lib.MiB, 2*lib.MiB + 4097, 3*lib.MiB + 1, 5*lib.MiB + 17, 8*lib.MiB + 5, 9*lib.MiB + 1})
 	case 2, 3:
 		return lib.Pick(rng, []int{lib.MiB - 1, lib.MiB, lib.MiB + 1})
 	case 4:
@@ -57,9 +60,15 @@ func d1Size(rng *rand.Rand) int {
 	return lib.Pick(rng, []int{1, 2, 4095, 4096, 4097, 8192, 8193, 12345, 12346, 64*lib.KiB - 1, 64 * lib.KiB, 64*lib.KiB + 1, 200_001})
 }
 
-func genD1File(rng *rand.Rand, id string) (*d1File, []byte) {
+// genD1File generates one file; forceLog > 0 makes it a multi-chunk cas.v2
+// file whose chunk frames advertise a window of 2^forceLog bytes.
+func genD1File(rng *rand.Rand, id string, forceLog int) (*d1File, []byte) {
 	f := &d1File{id: id, suffix: randSuffix(rng)}
-	switch v := rng.IntN(20); {
+	v := rng.IntN(20)
+	if forceLog > 0 {
+		v = 0
+	}
+	switch {
 	case v < 12:
 		f.kind, f.repr = "cas", "cas-zstd"
 	case v < 14:
@@ -75,12 +84,19 @@ func genD1File(rng *rand.Rand, id string) (*d1File, []byte) {
 	switch f.repr {
 	case "cas-zstd":
 		n := d1Size(rng)
+		f.chunk = lib.Pick(rng, chunkSizes)
+		if forceLog > 0 {
+			n = lib.Pick(rng, []int{lib.MiB + 1, 2*lib.MiB + 4097})
+			f.chunk = lib.Pick(rng, []int{256 * lib.KiB, lib.MiB, 2 * lib.MiB})
+		}
 		f.data = lib.GenBlob(rng, n, lib.Pick(rng, lib.ContentKinds), id)
 		f.hash = lib.Sha256Hex(f.data)
-		f.chunk = lib.Pick(rng, chunkSizes)
-		e := pickEncoder(rng, n)
+		e := newChunkEnc(rng, n, forceLog)
 		f.enc = e.name
-		file = lib.CasWrite(f.data, f.chunk, 1, e.fn)
+		fn, span := winStats.observe(e.fn)
+		file = lib.CasWrite(f.data, f.chunk, 1, fn)
+		e.done()
+		f.winLo, f.winHi = span()
 		f.rel = lib.CacheFileName("cas", f.hash, int64(n), false, f.suffix)
 	case "cas-identity-hdr":
 		n := d1Size(rng)
@@ -144,9 +160,12 @@ func dir1Case(r *lib.Run, rng *rand.Rand, d int, n int) {
 	want := map[string]int64{}
 	keys := map[string]bool{}
 	for i := 0; i < n; i++ {
-		f, b := genD1File(rng, fmt.Sprintf("d1-%d-%d-s%d", d, i, r.Seed))
+		// The first two files of every directory pin both ends of the
+		// window bound (2^27 and 2^10).
+		force := map[int]int{0: maxWindowLog, 1: minWindowLog}[i]
+		f, b := genD1File(rng, fmt.Sprintf("d1-%d-%d-s%d", d, i, r.Seed), force)
 		for keys[f.kind+"/"+f.hash] { // one file per key (tiny blobs have few possible values)
-			f, b = genD1File(rng, fmt.Sprintf("d1-%d-%d-s%d", d, i, r.Seed))
+			f, b = genD1File(rng, fmt.Sprintf("d1-%d-%d-s%d", d, i, r.Seed), force)
 		}
 		keys[f.kind+"/"+f.hash] = true
 		if err := writeFile(dir, f.rel, b); err != nil {
@@ -167,14 +186,16 @@ func dir1Case(r *lib.Run, rng *rand.Rand, d int, n int) {
 			r.Count("dir1.chunk." + chunkClass(f.chunk))
 		}
 		if f.repr == "cas-zstd" {
-			r.Count("dir1.enc." + f.enc)
+			r.Count("dir1.enc." + encFamily(f.enc))
+			r.Count("dir1.window." + windowClass(f.winHi))
 		}
 	}
 
 	// Two generations: open, read everything; restart under another
 	// configuration, read again.
+	// (every file is read by both zstd implementations)
 	first := cfgs[(d+int(r.Seed))%len(cfgs)]
-	second := cfgs[(d+int(r.Seed)+1+rng.IntN(3))%len(cfgs)]
+	second := cfg{lib.Pick(rng, []string{"zstd", "uncompressed"}), map[string]string{"go": "cgo", "cgo": "go"}[first.impl]}
 	for gen, c := range []cfg{first, second} {
 		phase := "open"
 		if gen == 1 {
@@ -249,6 +270,16 @@ func dir1Open(r *lib.Run, rng *rand.Rand, dir string, d int, c cfg, phase string
 	return true
 }
 
+// encFamily strips the per-case parameters from an encoder name.
+func encFamily(name string) string {
+	for _, p := range []string{"kp-stream", "kp-all-nosingle", "kp-all-single", "c-stream"} {
+		if strings.HasPrefix(name, p) {
+			return p
+		}
+	}
+	return name
+}
+
 func describeAll(files []*d1File) []any {
 	var out []any
 	for i, f := range files {
@@ -265,7 +296,7 @@ func dir1Reads(r *lib.Run, rng *rand.Rand, srv *lib.Server, c cfg, phase string,
 	n := int64(len(f.data))
 	sc := lib.SizeClassName(len(f.data))
 	sect := f.section()
-	r.Distinct(sect, f.repr, f.chunk, f.enc, sc, c.String(), phase)
+	r.Distinct(sect, f.repr, f.chunk, encFamily(f.enc), windowClass(f.winHi), sc, c.String(), phase)
 	if phase == "open" {
 		r.Sample(map[string]any{"section": sect, "cfg": c.String(), "file": f.describe()})
 	}
@@ -323,6 +354,11 @@ func dir1Reads(r *lib.Run, rng *rand.Rand, srv *lib.Server, c cfg, phase string,
 	maxOffsets := 11
 	if phase == "restart" {
 		maxOffsets = 4
+	}
+	if f.winHi > 32*lib.MiB {
+		// every read of such a file makes the decoder set up a window of up
+		// to 128 MiB: fewer offsets, same paths
+		maxOffsets = min(maxOffsets, 4)
 	}
 	offs := offsetsFor(rng, len(f.data), f.chunk, maxOffsets)
 	// Offsets repeated through the servers. A handler panic in the
